@@ -313,20 +313,23 @@ def oracle(line, ans, rng=None, checks=("at", "leq", "entails", "csts", "bot"), 
     step and store, or None"""
     ops = [o.split() for o in line.split(" ; ")]
     nregs, nv = int(ops[0][1]), int(ops[0][2])
-    nvar = nv + 2
+    nb = int(ops[0][3]) if len(ops[0]) > 3 else 2       # boolean variables: indices nv .. nv+nb-1
+    nvar = nv + nb
     if ans in ("ABORT", "MISSING") or ans.startswith("HARNESS-ERROR"):
         return None
     answers = ans.split(" ; ")
     r0 = random.Random(zlib.crc32(line.encode()))
 
     def rand_store():
-        return tuple([r0.choice(POOL) for _ in range(nv)] + [r0.choice([0, 1]), r0.choice([0, 1])])
+        return tuple([r0.choice(POOL) for _ in range(nv)] + [r0.choice([0, 1]) for _ in range(nb)])
 
     maxs = MAXS
     top_samples = [rand_store() for _ in range(MAXS)]
     if dense:
-        maxs = 700
-        top_samples += [tuple([r0.randint(-7, 7) for _ in range(nv)] + [r0.choice([0, 1]), r0.choice([0, 1])]) for _ in range(650)]
+        # dense = True: 650 small stores; dense = (count, span): that many stores with values in [-span, span]
+        cnt, span = (650, 7) if dense is True else dense
+        maxs = cnt + 50
+        top_samples += [tuple([r0.randint(-span, span) for _ in range(nv)] + [r0.choice([0, 1]) for _ in range(nb)]) for _ in range(cnt)]
     regs = [list(top_samples) for _ in range(nregs)]
     ai = 0
     last_state = {}
@@ -387,6 +390,54 @@ def oracle(line, ans, rng=None, checks=("at", "leq", "entails", "csts", "bot"), 
                     for s in regs[r]:
                         if not holds(c, s):
                             return "%s: exported constraint %s is violated by reachable store %s" % (where, c, list(s))
+            continue
+        if op == "q_bat":
+            r = k.nexti(); b = nv + k.nexti()
+            if "at" in checks or "bat" in checks:
+                for s in regs[r]:
+                    bad = ((a == "bottom") or (a == "true" and s[b] != 1) or (a == "false" and s[b] != 0) or
+                           (a.startswith("itv:") and not in_itv(parse_itv(a[4:]), s[b])))
+                    if a == "bottom" and "bot" not in checks:
+                        bad = False
+                    if bad:
+                        return "%s: at(v%d) = %s is reported for the boolean b%d but reachable store %s has b%d = %d" % (where, b, a, b - nv, list(s), b - nv, s[b])
+            continue
+        if op == "leqprobe":
+            # r := t ; assume_bool(r, b, neg).  Answer: "<s <= t> # <state of r> # <constraints of r>".
+            # If s <= t was answered true, the stores of s that pass the same assume_bool are
+            # states of t, hence must be inside what r reports.
+            r = k.nexti(); s1 = k.nexti(); t1 = k.nexti(); b = nv + k.nexti(); neg = k.nexti()
+            parts = [x.strip() for x in a.split(" # ")]
+            keepv = 0 if neg else 1
+            St = [s for s in regs[t1] if s[b] == keepv]
+            Ss = [s for s in regs[s1] if s[b] == keepv]
+            regs[r] = trim(St)
+            if len(parts) != 3:
+                continue
+            st = parse_state(parts[1])
+            last_state[r] = st
+            touched.add(r)
+            cs = []
+            if parts[2].startswith("{") and parts[2][1:-1]:
+                cs = [parse_ans_cst(x) for x in parts[2][1:-1].split(",") if "v?" not in x]
+            groups = [(regs[r], False)]
+            if parts[0] == "true" and "leq" in checks and s1 != t1:
+                groups.append((Ss, True))
+            for (grp, isleq) in groups:
+                what = ("inclusion answered true, so store %%s of the left operand is a state of the right operand; after assume_bool(b%d, negated=%d) on the right operand" % (b - nv, neg)) if isleq else "after assume_bool on a copy, reachable store %s:"
+                for s in grp:
+                    if st == "bot":
+                        if "bot" in checks or isleq:
+                            return "%s: %s the value is bottom" % (where, what % list(s))
+                        break
+                    if "at" in checks or isleq:
+                        for v in range(min(nvar, len(st))):
+                            if st[v] is not None and not in_itv(st[v], s[v]):
+                                return "%s: %s at(v%d) = %s excludes it" % (where, what % list(s), v, st[v])
+                    if "csts" in checks or isleq:
+                        for c in cs:
+                            if not holds(c, s):
+                                return "%s: %s exported constraint %s excludes it" % (where, what % list(s), c)
             continue
         if op == "q_at":
             r = k.nexti()
@@ -451,9 +502,41 @@ def oracle(line, ans, rng=None, checks=("at", "leq", "entails", "csts", "bot"), 
                     for _ in range(2):
                         t = s
                         for v in vs:
-                            t = upd(t, v, r0.choice(POOL))
+                            t = upd(t, v, r0.choice(POOL) if v < nv else r0.choice([0, 1]))
                         T.append(t)
                 S = T
+            elif op in ("bassign", "bwassign"):
+                b = nv + k.nexti(); c = p_cst(k)
+                T = [upd(s, b, 1 if holds(c, s) else 0) for s in S]
+                S = T if op == "bassign" else S + T
+            elif op in ("bcopy", "bwcopy"):
+                b = nv + k.nexti(); b1 = nv + k.nexti(); neg = k.nexti()
+                T = [upd(s, b, (1 - s[b1]) if neg else s[b1]) for s in S]
+                S = T if op == "bcopy" else S + T
+            elif op == "bbin":
+                f = k.next(); b = nv + k.nexti(); b1 = nv + k.nexti(); b2 = nv + k.nexti()
+                fn = {"and": lambda x, y: x & y, "or": lambda x, y: x | y, "xor": lambda x, y: x ^ y}[f]
+                S = [upd(s, b, fn(s[b1], s[b2])) for s in S]
+            elif op == "bassume":
+                b = nv + k.nexti(); neg = k.nexti()
+                S = [s for s in S if s[b] == (0 if neg else 1)]
+            elif op == "bselect":
+                b = nv + k.nexti(); bc = nv + k.nexti(); b1 = nv + k.nexti(); b2 = nv + k.nexti()
+                S = [upd(s, b, s[b1] if s[bc] else s[b2]) for s in S]
+            elif op in ("bforget", "havoc"):
+                x = k.nexti()
+                if op == "bforget":
+                    x += nv
+                T = []
+                for s in S:
+                    if x >= nv:
+                        T.append(upd(s, x, 0)); T.append(upd(s, x, 1))
+                    else:
+                        T.append(upd(s, x, r0.choice(POOL))); T.append(upd(s, x, r0.randint(-7, 7)))
+                S = T
+            elif op == "bfromint":
+                b = nv + k.nexti(); v = k.nexti()
+                S = [upd(s, b, s[v]) for s in S if s[v] in (0, 1)]
             elif op == "project":
                 n = k.nexti(); vs = set(k.nexti() for _ in range(n))
                 T = []
